@@ -99,6 +99,13 @@ impl<E: Elem> Iterator for Src<E> {
 fn collect_case<N: ArrayLength, E: Elem>(entry: u8, c: usize, hint: Hint, fused: bool, bomb: Option<u64>) -> Result<(CaseInfo, usize), String> {
     let n = N::USIZE;
     let mut src = Src::<E>::new(c, hint, fused);
+    // what the source announces before anything is pulled: "a size_hint that already rules N out" must be a LengthError
+    let (lo0, hi0) = {
+        let h = src.size_hint();
+        *src.hint_calls.borrow_mut() = 0;
+        h
+    };
+    let rules_out = lo0 > n || hi0.map_or(false, |u| u < n);
     ledger::set_call_bomb(bomb);
     // Ok(Some(ids)) = array returned, Ok(None) = LengthError
     let r = catch(AssertUnwindSafe(|| -> Option<Vec<u32>> {
@@ -137,6 +144,9 @@ fn collect_case<N: ArrayLength, E: Elem>(entry: u8, c: usize, hint: Hint, fused:
             };
             match &verdict {
                 Some(ids) => {
+                    if rules_out {
+                        return Err(format!("Ok although the source's size hint ({lo0}, {hi0:?}) already ruled N = {n} out (it then produced {c} items; hint {hint:?})"));
+                    }
                     // Ok only if exactly N items were produced before the source ended, in order
                     if c != n {
                         return Err(format!("Ok from a source that produced {c} items before ending (N = {n}, hint {hint:?}, fused {fused})"));
@@ -147,7 +157,7 @@ fn collect_case<N: ArrayLength, E: Elem>(entry: u8, c: usize, hint: Hint, fused:
                     outcome = "ok";
                 }
                 None => {
-                    if c == n && hint.truthful() {
+                    if c == n && hint.truthful() && !rules_out {
                         return Err(format!("rejected a source of exactly N = {n} items with a truthful size hint ({hint:?}, fused {fused})"));
                     }
                     outcome = if c == n { "rejected-on-lying-hint" } else if entry == 1 || entry == 3 { "length-panic" } else { "length-error" };
